@@ -133,9 +133,9 @@ def make_value(it, t, name: str) -> V:
         it.assume(z3.Length(s.e) < MAXLEN)
         it.assume(z3.Length(s.e) > 0)
         if t.exists is True:
-            it.assume(z3.Select(it.fs_exists, s.e))
+            it.assume(it.fs.exists(s.e))
         elif t.exists is False:
-            it.assume(z3.Not(z3.Select(it.fs_exists, s.e)))
+            it.assume(z3.Not(it.fs.exists(s.e)))
         it.path_params = getattr(it, "path_params", {})
         it.path_params[name] = s
         return s
